@@ -2,6 +2,7 @@ import FV.Props.Catalog
 import FV.IoAsync
 import FV.IoAsyncRecv
 import FV.IoArb
+import FV.IoPipeLive
 /-! # C08 — async IO: both futures are stuttering refinements of the blocking loops; the pipe between them is a FIFO
 
 The executor and the waker are not in the model. The harness drives the real futures with a counting waker: a task is
@@ -37,6 +38,15 @@ theorem C08_pipe_fifo (cap : Nat) (sched : List Sched) (stream : Bytes) :
     fin.got ++ fin.q ++ fin.toSend = stream ∧ fin.q.length ≤ cap := by
   have := pipe_fifo cap sched ⟨stream, [], []⟩
   exact ⟨by simpa using this.1, this.2 (Nat.zero_le _)⟩
+
+/-- **C08 (progress).** Over a bounded pipe of any capacity ≥ 1: if both tasks keep being polled — alternately, each poll moving
+at least one byte whenever it can and at most its chunk limit — then after as many rounds as the stream has bytes the receiver
+has taken exactly the stream, in order. No schedule of this kind starves either side; with `C08_pipe_fifo` (every schedule is
+safe) and the two refinement theorems this is the delivery of the sent sequence by the pair. -/
+theorem C08_pipe_fair_delivers (cap : Nat) (hcap : 0 < cap) (stream : Bytes) (rounds : List (Nat × Nat))
+    (hpos : ∀ ab ∈ rounds, 0 < ab.1 ∧ 0 < ab.2) (hlen : stream.length ≤ rounds.length) :
+    ((rounds.flatMap fun ab => [Sched.w ab.1, Sched.r ab.2]).foldl (pipeStep cap) ⟨stream, [], []⟩).got = stream :=
+  pipe_fair_delivers cap hcap stream rounds hpos hlen
 
 /-- non-vacuity: `FlatVec<u8,u16>` messages; the blocking `recv` on the erased script reaches an outcome (a message), so the
 theorem applies: the async `recv` suspended twice in its second read returns the same message -/
